@@ -441,3 +441,66 @@ def r1_init(ctx: Ctx) -> list[Ob]:
             else:
                 out.append(viol("R1c", r.rule.qualname, f"carry:{k}", f"argument '{k}' of {r.key.name} never reaches the compiled initialiser", r.rule.loc))
     return out
+
+
+# ------------------------------------------------------------------------------------------ R1e
+def _check_atoms(fn: ast.FunctionDef) -> set[str]:
+    """the atomic comparisons a constructor insists on (asserts, and negated refusing guards), chains
+    split: `0 <= a < b` -> {`0 <= a`, `a < b`}"""
+    out: set[str] = set()
+    for n in ast.walk(fn):
+        tests: list[ast.AST] = []
+        if isinstance(n, ast.Assert):
+            tests.append(n.test)
+        for t in tests:
+            stack = [t]
+            while stack:
+                e = stack.pop()
+                if isinstance(e, ast.BoolOp) and isinstance(e.op, ast.And):
+                    stack += e.values
+                elif isinstance(e, ast.Compare):
+                    items = [e.left, *e.comparators]
+                    for a, op, b in zip(items, e.ops, items[1:]):
+                        out.add(ast.unparse(ast.Compare(left=a, ops=[op], comparators=[b])))
+    return out
+
+
+def r1e(ctx: Ctx, pairs_prefix: tuple[str, str] = ("cirkit.symbolic.parameters", "cirkit.backend.torch.parameters.nodes")) -> list[Ob]:
+    """R1e -- the torch node is not pickier than the symbolic node it is compiled from.
+
+    For every symbolic parameter node class ``X`` with a torch counterpart ``TorchX``: the atomic
+    comparisons the torch constructor asserts about hyper-parameters *both* constructors take under
+    the same name (numeric literals allowed on the other side) are among those the symbolic
+    constructor asserts.  An extra one means a symbolic node that is valid by its own checks cannot
+    be compiled (``ScaledSigmoid`` onto [-1, 1] with a torch-side ``0 <= vmin``)."""
+    out: list[Ob] = []
+    sym_mod, torch_mod = pairs_prefix
+    n_pairs = 0
+    for tc in ctx.repo.classes.values():
+        if tc.module.name != torch_mod or not tc.name.startswith("Torch"):
+            continue
+        sc = next((c for c in ctx.repo.classes.values() if c.module.name == sym_mod and c.name == tc.name[len("Torch"):]), None)
+        if sc is None:
+            continue
+        ti, si = tc.methods.get("__init__"), sc.methods.get("__init__")
+        if ti is None or si is None:
+            continue
+        common = {p.name for p in ti.params} & {p.name for p in si.params} - {"self", "in_shape", "in_shape1", "in_shape2"}
+        if not common:
+            continue
+        n_pairs += 1
+
+        def relevant(atom: str) -> bool:
+            names = {x.id for x in ast.walk(ast.parse(atom, mode="eval")) if isinstance(x, ast.Name)}
+            return bool(names) and names <= common
+
+        ta = {a for a in _check_atoms(ti.node) if relevant(a)}
+        sa_ = {a for a in _check_atoms(si.node) if relevant(a)}
+        extra = sorted(ta - sa_)
+        if extra:
+            out.append(viol("R1e", tc.qualname, "checks<=symbolic", f"the torch constructor asserts {extra} on hyper-parameters the symbolic {sc.name} accepts without that check ({sorted(sa_) or 'no check'}): a node that is valid symbolically raises at compile time", ti.loc))
+        else:
+            out.append(ok("R1e", tc.qualname, "checks<=symbolic", f"torch-side checks on {sorted(common)} are among the symbolic ones", ti.loc))
+    if n_pairs == 0:
+        raise AnalysisError("R1e: no (symbolic, torch) parameter node pair with a common hyper-parameter (anchor vanished)")
+    return out
